@@ -214,5 +214,116 @@ theorem marked_N (ℓ : Nat) : ¬ Marked codeN ℓ := by
   have : (noclTokens codeN).map (·.line) = [] := by decide
   rw [this]; simp
 
+/-! ### the nested pair in C, measured -/
+
+def mNf : Measurement := ⟨[102], 1, 1, 3, 2, 3⟩
+def mNg : Measurement := ⟨[103], 2, 3, 2, 13, 1⟩
+
+theorem measureNf : measure codeN sNf [] = .ok mNf := measure_nil _ _ _ (by decide +kernel)
+theorem measureNg : measure codeN sNg [] = .ok mNg := measure_nil _ _ _ (by decide +kernel)
+
+/-- unmarked: only the outer function is measured -/
+theorem scanN_U : scanFile Gen.c codeN = .ok [mNf] := by
+  unfold scanFile
+  rw [buildN_U, codeN_U]
+  simp only [measureAll, measureNf]
+
+/-- outer function marked: the inner function is measured -/
+theorem scanN_M : scanFile Gen.c codeNM = .ok [mNg] := by
+  unfold scanFile
+  rw [buildN_M, codeN_M]
+  simp only [measureAll, measureNg]
+
+theorem marked_NM (ℓ : Nat) : Marked codeNM ℓ ↔ ℓ = 1 := by
+  rw [marked_iff_mem_lines]
+  have : (noclTokens codeNM).map (·.line) = [1] := by decide
+  rw [this]; simp
+
+/-! ## two functions on ONE line: C++ `f(){a;} g(){b;} // x` versus `f(){a;} g(){b;} // nocl`
+
+(the tokens, kinds, lines and columns are those of `lex(CppLexer(), text, False)`; the comment
+token of Pygments includes the final newline) -/
+
+/-- `n(){b;}` on line `l`, the name in column `c` -/
+def fnAt (n b l c : Nat) : List Tok :=
+  [mk 2 [n] l c, mk 3 [40] l (c + 1), mk 3 [41] l (c + 2), mk 3 [123] l (c + 3),
+   mk 2 [b] l (c + 4), mk 3 [59] l (c + 5), mk 3 [125] l (c + 6)]
+
+/-- the code tokens of `f(){a;} g(){b;}` -/
+def code1 : List Tok := fnAt 102 97 1 1 ++ fnAt 103 98 1 9
+/-- `f(){a;} g(){b;} // x` -/
+def lineU : List Tok := code1 ++ [mk 5 [47, 47, 32, 120, 10] 1 17]
+/-- `f(){a;} g(){b;} // nocl` -/
+def lineM : List Tok := code1 ++ [mk 5 [47, 47, 32, 110, 111, 99, 108, 10] 1 17]
+
+def sLf : Scope := ⟨⟨mk 2 [102] 1 1, ⟨0, 3⟩⟩, ⟨3, 7⟩⟩
+def sLg : Scope := ⟨⟨mk 2 [103] 1 9, ⟨7, 10⟩⟩, ⟨10, 14⟩⟩
+
+theorem codeL_U : filterTokens false lineU = code1 := by decide
+theorem codeL_M : filterTokens false lineM = code1 := by decide
+
+theorem rawL : rawScopes Gen.cpp code1 = .ok [sLf, sLg] := by
+  have h1 : extractHeaders Gen.cpp code1 = .ok [sLf.hdr, sLg.hdr] := by decide +kernel
+  have h2 : extractBlocks Gen.cpp code1 [sLf.hdr, sLg.hdr] = .ok [sLf.blk, sLg.blk] := by
+    have hpy : Gen.cpp.python = false := by decide
+    unfold extractBlocks getBlocks
+    rw [hpy]
+    have hp : (balancedPairs [123] [125] code1 0 []).map (fun p => (⟨p.1, p.2 + 1⟩ : Range))
+        = [sLf.blk, sLg.blk] := by decide +kernel
+    rw [hp]
+    have hk : withKeys code1 Range.s [sLf.blk, sLg.blk]
+        = .ok [((1, 4), sLf.blk), ((1, 12), sLg.blk)] := by decide +kernel
+    exact sortAsc_of hk (ks' := [((1, 4), sLf.blk), ((1, 12), sLg.blk)])
+      (by simp [List.mergeSort, keyLe])
+  have h3 : buildScopes0 code1 [sLf.hdr, sLg.hdr] [sLf.blk, sLg.blk] = .ok [sLf, sLg] := by
+    have hk : withKeys code1 (fun h : Header => h.rng.s) [sLf.hdr, sLg.hdr]
+        = .ok [((1, 1), sLf.hdr), ((1, 9), sLg.hdr)] := by decide +kernel
+    have hs := sortDesc_of hk (ks' := [((1, 9), sLg.hdr), ((1, 1), sLf.hdr)])
+      (by simp [List.mergeSort, keyLe])
+    have hl : buildScopesLoop [sLg.hdr, sLf.hdr] [sLf.blk, sLg.blk] = .ok [sLg, sLf] := by
+      decide +kernel
+    unfold buildScopes0
+    rw [hs]
+    simp only [List.map_cons, List.map_nil, hl]
+    rfl
+  unfold rawScopes
+  rw [h1]
+  simp only [bind, Except.bind]
+  rw [h2]
+  exact h3
+
+def mLf : Measurement := ⟨[102], 1, 1, 1, 8, 1⟩
+def mLg : Measurement := ⟨[103], 1, 9, 1, 16, 1⟩
+
+theorem measureLf : measure code1 sLf [] = .ok mLf := measure_nil _ _ _ (by decide +kernel)
+theorem measureLg : measure code1 sLg [] = .ok mLg := measure_nil _ _ _ (by decide +kernel)
+
+theorem arrangeL : arrange Gen.cpp [sLf, sLg] = [(sLf, []), (sLg, [])] := by decide
+
+/-- unmarked: both functions are reported -/
+theorem scanL_U : scanFile Gen.cpp lineU = .ok [mLf, mLg] := by
+  have hf : filterNocl [sLf, sLg] (noclTokens lineU) = [sLf, sLg] := by decide
+  unfold scanFile
+  rw [buildScopes_eq, codeL_U, rawL]
+  simp only [Except.map, hf, arrangeL, measureAll, measureLf, measureLg]
+
+/-- one marker at the end of the line: NO function is reported -/
+theorem scanL_M : scanFile Gen.cpp lineM = .ok [] := by
+  have hf : filterNocl [sLf, sLg] (noclTokens lineM) = [] := by decide
+  have ha : arrange Gen.cpp [] = [] := by decide
+  unfold scanFile
+  rw [buildScopes_eq, codeL_M, rawL]
+  simp only [Except.map, hf, ha, measureAll]
+
+theorem marked_LU (ℓ : Nat) : ¬ Marked lineU ℓ := by
+  rw [marked_iff_mem_lines]
+  have : (noclTokens lineU).map (·.line) = [] := by decide
+  rw [this]; simp
+
+theorem marked_LM (ℓ : Nat) : Marked lineM ℓ ↔ ℓ = 1 := by
+  rw [marked_iff_mem_lines]
+  have : (noclTokens lineM).map (·.line) = [1] := by decide
+  rw [this]; simp
+
 end C17Ex
 end CL
